@@ -125,7 +125,7 @@ CHECKS = {
     ),
     'C14': dict(
         level='exploration',
-        units=[U('^TestC14_Sketch$', (6, 400, 40), (8, 3000, 80)), U('^TestC14_Stores$', (6, 400, 40), (8, 3000, 80)), U('^TestC14_ReadOrNot$', (4, 8000), (8, 150000))],
+        units=[U('^TestC14_Sketch$', (6, 400, 40), (8, 3000, 80)), U('^TestC14_Stores$', (6, 400, 40), (8, 3000, 80)), U('^TestC14_ReadOrNot$', (4, 8000), (8, 150000)), U('^TestC14_Decay$', (2, 8000), (3, 200000))],
         essential_labels=['level:sketch', 'level:store', 'level:twin', 'read:copy', 'read:merge-argument', 'read:encode', 'read:toproto', 'read:encodeproto', 'read:changemapping', 'read:store-reads', 'read:bins', 'copy-then-mutations-on-both-sides', 'mutation-after-read-on-buffered-paginated', 'variant:exact'],
         assumptions=COMMON_ASSUMPTIONS + ["that a protobuf message is a snapshot of its source is asserted at store level (the store machines mutate the source between ToProto and MergeWithProto), not separately at sketch level"],
     ),
